@@ -314,13 +314,20 @@ func (s *scen) Key() string {
 	return b.String()
 }
 
-func mkOps() []opDef {
+func mkOps(cfg Config) []opDef {
 	ops := []opDef{{kind: 0}, {kind: 1}, {kind: 6}}
 	for k := 0; k < maxLive; k++ {
 		ops = append(ops, opDef{kind: 2, slot: k})
 	}
 	for _, d := range []int64{2, 4, 500, 1000} {
 		ops = append(ops, opDef{kind: 3, tick: d})
+	}
+	for _, r := range cfg.Rules {
+		if system.MetricType(r.Metric) == system.AvgRT && r.Trigger >= 1000 {
+			// response times beyond the default statistic maximum (60 s) count in full
+			ops = append(ops, opDef{kind: 3, tick: 90000})
+			break
+		}
 	}
 	for _, v := range []float64{1.0, 1.5} {
 		ops = append(ops, opDef{kind: 4, val: v})
@@ -336,6 +343,7 @@ func configs(quick bool) []Config {
 	single := []RSpec{
 		{Q, 1, false}, {Q, 2, false}, {C, 1, false}, {C, 2, false}, {RT, 3, false}, {RT, 5, false},
 		{L, 1.0, false}, {L, 1.0, true}, {CPU, 0.5, false}, {CPU, 0.5, true}, {Q, 0, false}, {C, 0, false}, {RT, 0, false},
+		{RT, 70000, false},
 	}
 	var out []Config
 	out = append(out, Config{nil})
@@ -404,7 +412,7 @@ func run(c *props.Ctx) {
 			c.R.Cap("time budget reached before all rule sets were explored")
 			break
 		}
-		s := &scen{cfg: cfg, ops: mkOps()}
+		s := &scen{cfg: cfg, ops: mkOps(cfg)}
 		d := depth
 		for _, r := range cfg.Rules {
 			if r.BBR && c.Quick() {
@@ -440,7 +448,7 @@ func replay(c *props.Ctx, raw json.RawMessage) (bool, string) {
 	if err := json.Unmarshal(raw, &d); err != nil {
 		return false, err.Error()
 	}
-	s := &scen{cfg: d.Cfg, ops: mkOps()}
+	s := &scen{cfg: d.Cfg, ops: mkOps(d.Cfg)}
 	w := seq.Replay(s, d.Path)
 	return w != "", w
 }
